@@ -88,13 +88,14 @@ def run_c05(prop, tier):
 def run_c08(prop, tier):
     t0 = time.time()
     q = tier == "quick"
-    sigs = (["KQk", "KRk", "Kkq", "Kkr", "KPk", "KNNk;files=5", "Kknn;files=5", "KQkn;files=4", "KQkr;files=4", "KRkp;files=4", "KRkb;files=4"] if q else
-            ["KQk", "KRk", "Kkq", "Kkr", "KPk", "KQkn;files=6", "KQkr;files=6", "KQkb;files=6", "KRkn;files=6", "KRkb;files=6", "KRkp;files=5", "KQkp;files=5", "KBNk;files=5", "KRRk;files=5", "KNNk", "Kknn", "KNNkn;files=5", "KNNkp;files=5"])
+    sigs = (["KQk", "KRk", "Kkq", "Kkr", "KPk", "KNNk;files=5", "Kknn;files=5", "KQkn;files=4", "KQkr;files=4", "KRkp;files=4", "KRkb;files=4", "KRPkp;files=3"] if q else
+            ["KQk", "KRk", "Kkq", "Kkr", "KPk", "KQkn;files=6", "KQkr;files=6", "KQkb;files=6", "KRkn;files=6", "KRkb;files=6", "KRkp;files=5", "KQkp;files=5", "KBNk;files=5", "KRRk;files=5", "KNNk", "Kknn", "KNNkn;files=5", "KNNkp;files=5", "KRPkp;files=4", "KQPkp;files=4", "KPkpr;files=4", "KBPkp;files=4"])
     lists = []
     for s in sigs:
         n = 16
         for i in range(n):
-            lists.append(("mates", 1, ["--sig", "%s;ep=none;shard=%d/%d" % (s, i, n)]))
+            five = "P" in s and "p" in s
+            lists.append(("mates", 1, ["--sig", "%s;%sshard=%d/%d" % (s, "" if five else "ep=none;", i, n)] + (["--m1every", "16"] if five else [])))
     lists += [("history", 32, []), ("limits", 16, []), ("depths", 16, []), ("tactics", 32, [])]
     merged = driver.merge(driver.run_jobs(prop, tier, _search_jobs(prop, tier, lists), env=_asan_env()))
     return driver.finish(prop, tier, MC, merged, t0,
